@@ -180,7 +180,7 @@ GEN_KEYMAP = lambda k: -1 if k < 0 else min(15, 3 * k)
 def gen_scripts(seed, per_worker, workers, max_ops, pick_per_tag, timeout, repair=False, require_tag=None, big=False, family=False):
     d = c.scratch('gen')
     outdir = os.path.join(d, 'out'); os.makedirs(outdir)
-    cfg = open(os.path.join(c.SPEC, 'LsmGenA.cfg' if family == 'A' else 'LsmGenF.cfg' if family else 'LsmGen.cfg')).read()
+    cfg = open(os.path.join(c.SPEC, 'LsmGenA.cfg' if family == 'A' else 'LsmGenC.cfg' if family == 'C' else 'LsmGenF.cfg' if family else 'LsmGen.cfg')).read()
     cfg = cfg.replace('OutDir = "/tmp/lsmgen_out"', 'OutDir = "%s"' % outdir).replace('MaxOps = 14', 'MaxOps = %d' % max_ops)
     if family: max_ops = 25
     if big:
@@ -270,6 +270,15 @@ def gen_layer(prop, tier, seed, out, mc):
             chosen = chosen + chosen_a
             stats['auto'] = {k: v for k, v in stats_a.items() if k in ('generated', 'chosen', 'tag_counts')}
             c.rmtree(d_a)
+    if chosen is not None:
+        # fifth generation: chains of overlapping level-0 files and a ranged level-0 compaction (transitive closure of the inputs)
+        chosen_c, stats_c, d_c = gen_scripts(seed + 4, 120 if quick else 2000, 8, 24, 3 if quick else 40, 300 if quick else 2400, family='C')
+        if chosen_c is None:
+            chosen, stats = None, stats_c
+        else:
+            chosen = chosen + chosen_c
+            stats['chain'] = {k: v for k, v in stats_c.items() if k in ('generated', 'chosen', 'tag_counts')}
+            c.rmtree(d_c)
     if chosen is None:
         r = stats
         rd = c.replay_dir(prop, 'gen')
